@@ -531,6 +531,8 @@ func (x *executor) builtin(m *machine, fr *frame, in ssa.Instruction, res ssa.Va
 	case "print", "println":
 	case "ssa:deferstack":
 		x.setResult(fr, res, []Val{{t: refConst(0), typ: types.Typ[types.UnsafePointer]}})
+	case "close":
+		// closing a channel: opaque
 	case "delete":
 		x.mapDelete(m, fr, in, args[0], args[1], com.Args[0].Type())
 	case "min", "max":
